@@ -126,6 +126,14 @@ func (a *HypAttributes) Validate() error {
 		return fmt.Errorf("destination domain %d is a Noble domain", a.DestinationDomain)
 	}
 
+	// NOTE: the Hyperlane module panics when it builds the coins for a max fee which is not
+	// a valid coin (negative amount, or invalid denom with a non-zero amount).
+	if !a.MaxFee.Amount.IsNil() && !a.MaxFee.IsZero() {
+		if err := a.MaxFee.Validate(); err != nil {
+			return fmt.Errorf("invalid max fee: %w", err)
+		}
+	}
+
 	if a.CustomHookMetadata != "" {
 		if !strings.HasPrefix(a.CustomHookMetadata, HypHookMetadataPrefix) {
 			return fmt.Errorf("hook metadata must have the %s prefix, got: %s",
